@@ -14,28 +14,9 @@ func (k Keeper) AfterUpsertStakingPool(ctx sdk.Context, valAddr sdk.ValAddress, 
 		if rate.StakeEnabled {
 			basket, err := k.GetBasketByDenom(ctx, fmt.Sprintf("sdb/%s", rate.Denom))
 			if err != nil {
-				basket = types.Basket{
-					Id:              1,
-					Suffix:          fmt.Sprintf("staking/%s", rate.Denom),
-					Description:     fmt.Sprintf("Basket of staking derivatives for %s token", rate.Denom),
-					Amount:          sdk.ZeroInt(),
-					SwapFee:         sdk.ZeroDec(),
-					SlipppageFeeMin: sdk.ZeroDec(),
-					TokensCap:       sdk.ZeroDec(),
-					LimitsPeriod:    86400,
-					MintsMin:        sdk.OneInt(),
-					MintsMax:        sdk.NewInt(1000_000_000_000), // 1M
-					MintsDisabled:   false,
-					BurnsMin:        sdk.OneInt(),
-					BurnsMax:        sdk.NewInt(1000_000_000_000), // 1M
-					BurnsDisabled:   false,
-					SwapsMin:        sdk.OneInt(),
-					SwapsMax:        sdk.NewInt(1000_000_000_000), // 1M
-					SwapsDisabled:   false,
-					Tokens:          []types.BasketToken{},
-					Surplus:         []sdk.Coin{},
-				}
-				k.SetBasket(ctx, basket)
+				// no staking-derivative basket for this token: nothing to extend. (Storing a fresh
+				// record here used Id 1 and so replaced whatever basket was registered under that id.)
+				continue
 			}
 
 			shareDenom := multistakingtypes.GetShareDenom(pool.Id, rate.Denom)
